@@ -62,6 +62,10 @@ func (s *Server) cmdScan(msg *Message) (res resp.Value, err error) {
 			if count < 0 {
 				count = 0
 			}
+			if uint64(count) > sw.limit {
+				// COUNT with a LIMIT reports what the same query would send
+				count = int(sw.limit)
+			}
 			sw.count = uint64(count)
 		} else {
 			limits := multiGlobParse(sw.globs, args.desc)
